@@ -139,7 +139,7 @@ class _Gen:
                 break
             mark = len(self.lines)
             done = self.stmt(ind, depth)
-            if self.opts["clean"] and emitted == 0:
+            if self.opts["clean"] and not self.opts.get("empty_arms_ok") and emitted == 0:
                 first = self.lines[mark].strip()
                 if first in ("pass", "break", "continue"):
                     # keep the arm from being effectively empty
@@ -148,7 +148,7 @@ class _Gen:
             if done:
                 break
         if not emitted:
-            self.emit(ind, "E(%d)" % self.sid() if self.opts["clean"] else "pass")
+            self.emit(ind, "E(%d)" % self.sid() if (self.opts["clean"] and not self.opts.get("empty_arms_ok")) else "pass")
 
     def stmt(self, ind, depth):
         """Emit one statement; return True if control cannot fall through."""
@@ -158,7 +158,7 @@ class _Gen:
         inloop = self.loopdepth > 0
         deep = depth >= o["maxdepth"]
         kind = r.weighted([
-            ("assign", 5), ("aug", 2), ("expr", 2), ("pass", 0 if o["clean"] else 0.3),
+            ("assign", 5), ("aug", 2), ("expr", 2), ("pass", 0 if (o["clean"] and not o.get("empty_arms_ok")) else 0.3),
             ("store", 1.2 * o["stores"]),
             ("if", 0 if deep else 4), ("while", 0 if deep else 2 * o["loops"]),
             ("for", 0 if deep else 2.5 * o["loops"]),
@@ -257,6 +257,10 @@ def draw_opts(rng):
         # a known finding can never mask a new defect in these runs
         o.update({"clean": True, "boolop_mode": "toplevel", "keep_loopvar": 0.0,
                   "for_target_local": False})
+        # arms that do nothing (`if c: pass`, `while c: break`) were tied to a
+        # known finding until it was repaired (3526765); half of the clean runs
+        # now draw them freely, because that repair is new code to be exercised
+        o["empty_arms_ok"] = rng.fork("empty-arms").chance(0.5)
     return o
 
 
